@@ -1,8 +1,1023 @@
-(* Proofs about HSModel. *)
-From Coq Require Import ZArith List Bool Lia Permutation.
+(* Proofs about HSModel: one ConcurrentFixedSwissTable (find / do_emplace / clear / rehash / reserve over the
+   control bytes with the mirrored group and triangular group probing), then the ConcurrentTransientHashSet
+   chain, then client programs over two containers against the insertion-ordered reference map. *)
+From Coq Require Import ZArith List Bool Lia Permutation Znumtheory Zpow_facts.
 Require Import Verif.Gen.Gen_hash_table Verif.HS.HSModel.
 Import ListNotations.
 Local Open Scope Z_scope.
+
+
+(* ------------------------------------------------------------------ part 1 *)
+
+(* ================= arithmetic of the regenerated formulas ================= *)
+Lemma land_mask x k : 0 <= k -> Z.land x (2 ^ k - 1) = x mod 2 ^ k.
+Proof. intros. rewrite <- Z.land_ones by lia. f_equal. rewrite Z.ones_equiv. lia. Qed.
+
+Definition pow2 (B : Z) : Prop := exists k, 4 <= k /\ B = 2 ^ k.
+
+Lemma pow2_ge B : pow2 B -> 16 <= B.
+Proof. intros (k & Hk & ->). change 16 with (2 ^ 4). apply Z.pow_le_mono_r; lia. Qed.
+
+Lemma pow2_div16 B : pow2 B -> B = 16 * (B / 16) /\ pow2 B.
+Proof.
+  intros H. split; auto. destruct H as (k & Hk & ->).
+  replace k with (4 + (k - 4)) by lia. rewrite Z.pow_add_r by lia. change (2 ^ 4) with 16.
+  rewrite Z.mul_comm, Z.div_mul by lia. lia.
+Qed.
+
+Lemma size_16 : SIZE = 16. Proof. reflexivity. Qed.
+Lemma empty_val : EMPTY_CONTROL = -128. Proof. reflexivity. Qed.
+Lemma dummy_val : DUMMY_CONTROL = -126. Proof. reflexivity. Qed.
+
+Lemma bcount_eq t : bcount t = mask t + 1.
+Proof. reflexivity. Qed.
+
+Lemma offsets_eq : offsets = [0;1;2;3;4;5;6;7;8;9;10;11;12;13;14;15].
+Proof. reflexivity. Qed.
+
+Lemma in_zrange n i : In i (zrange n) <-> 0 <= i < n.
+Proof.
+  unfold zrange. rewrite in_map_iff. split.
+  - intros (x & <- & Hx). apply in_seq in Hx. lia.
+  - intros H. exists (Z.to_nat i). split; [lia|]. apply in_seq. lia.
+Qed.
+
+Lemma in_offsets o : In o offsets <-> 0 <= o < 16.
+Proof. unfold offsets. rewrite size_16. apply in_zrange. Qed.
+
+Lemma nodup_zrange n : NoDup (zrange n).
+Proof.
+  unfold zrange. apply FinFun.Injective_map_NoDup; [|apply seq_NoDup].
+  intros a b H. lia.
+Qed.
+
+Section Mask.
+Variables (m B : Z).
+Hypothesis HB : pow2 B.
+Hypothesis Hm : m = B - 1.
+
+Lemma land_m x : Z.land x m = x mod B.
+Proof. destruct HB as (k & Hk & HBk). subst m. rewrite HBk. apply land_mask. lia. Qed.
+
+Lemma checker_range h : 0 <= find_checker h < 128.
+Proof. unfold find_checker. change CHECKER_MASK with (2 ^ 7 - 1). rewrite land_mask by lia. apply Z.mod_pos_bound. lia. Qed.
+
+Lemma emp_checker_eq h : emp_checker h = find_checker h. Proof. reflexivity. Qed.
+Lemma emp_base0_eq h : emp_base0 h m = find_base0 h m. Proof. reflexivity. Qed.
+
+Lemma base0_range h : 0 <= find_base0 h m < B.
+Proof. unfold find_base0. rewrite land_m. apply Z.mod_pos_bound. pose proof (pow2_ge _ HB). lia. Qed.
+
+Lemma find_index_eq b o : find_index b o m = (b + o) mod B.
+Proof. unfold find_index. apply land_m. Qed.
+Lemma emp_match_index_eq b o : emp_match_index b o m = (b + o) mod B.
+Proof. unfold emp_match_index. apply land_m. Qed.
+Lemma emp_insert_index_eq b o : emp_insert_index b o m = (b + o) mod B.
+Proof. unfold emp_insert_index. apply land_m. Qed.
+Lemma find_next_base_eq b s : find_next_base b s m = (b + s) mod B.
+Proof. unfold find_next_base. apply land_m. Qed.
+Lemma emp_next_base_eq b s : emp_next_base b s m = (b + s) mod B.
+Proof. unfold emp_next_base. apply land_m. Qed.
+
+Lemma cloned_eq i : 0 <= i < B -> emp_cloned_index i m = if i <? 15 then B + i else i.
+Proof.
+  intros Hi. pose proof (pow2_ge _ HB). unfold emp_cloned_index. rewrite !land_m.
+  change GROUP_MASK with 15. rewrite (Z.mod_small 15) by lia.
+  destruct (i <? 15) eqn:E.
+  - apply Z.ltb_lt in E. replace (i - 15) with ((i - 15 + B) + (-1) * B) by lia.
+    rewrite Z.mod_add by lia. rewrite Z.mod_small by lia. lia.
+  - apply Z.ltb_ge in E. rewrite Z.mod_small by lia. lia.
+Qed.
+
+Lemma loop_cond_eq s : find_loop_cond s m = (s <? B).
+Proof. unfold find_loop_cond. subst m. destruct (s <=? B - 1) eqn:E, (s <? B) eqn:F; try reflexivity; lia. Qed.
+Lemma emp_loop_cond_eq s : emp_loop_cond s m = (s <? B).
+Proof. apply loop_cond_eq. Qed.
+End Mask.
+
+
+(* ------------------------------------------------------------------ part 2 *)
+
+(* ---- match_offs ---- *)
+Lemma match_offs_some t key c b f os i : match_offs t key c b f os = Some i ->
+  exists o, In o os /\ i = f o /\ ctrl t (b + o) = c /\ key_at t i key = true.
+Proof.
+  induction os as [|o r IH]; simpl; [discriminate|].
+  destruct ((ctrl t (b + o) =? c) && key_at t (f o) key) eqn:E.
+  - intros [= <-]. apply andb_true_iff in E as [E1 E2]. apply Z.eqb_eq in E1.
+    exists o. simpl. auto.
+  - intros H. destruct (IH H) as (o' & ? & ?). exists o'. simpl. tauto.
+Qed.
+
+Lemma match_offs_none t key c b f os : match_offs t key c b f os = None ->
+  forall o, In o os -> ctrl t (b + o) = c -> key_at t (f o) key = false.
+Proof.
+  induction os as [|o r IH]; simpl; [tauto|].
+  destruct ((ctrl t (b + o) =? c) && key_at t (f o) key) eqn:E; [discriminate|].
+  intros H o' [<-|Hin] Hc; [|eauto].
+  apply andb_false_iff in E as [E|E]; auto. apply Z.eqb_neq in E. contradiction.
+Qed.
+
+Lemma first_empty_some t b o : first_empty t b = Some o -> 0 <= o < 16 /\ ctrl t (b + o) < 0.
+Proof.
+  unfold first_empty. intros H. apply find_some in H as [H1 H2]. apply in_offsets in H1. apply Z.ltb_lt in H2. auto.
+Qed.
+
+Lemma first_empty_none t b : first_empty t b = None -> forall o, 0 <= o < 16 -> 0 <= ctrl t (b + o).
+Proof.
+  unfold first_empty. intros H o Ho. apply in_offsets in Ho.
+  pose proof (find_none _ _ H o Ho) as E. simpl in E. apply Z.ltb_ge in E. auto.
+Qed.
+
+Lemma key_at_true t i key : key_at t i key = true <-> exists e, vals t i = Some e /\ fst e = key.
+Proof.
+  unfold key_at. destruct (vals t i) as [e|].
+  - rewrite Z.eqb_eq. split; [eauto|]. intros (e' & [= <-] & ?). auto.
+  - split; [discriminate|]. intros (e' & ? & _). discriminate.
+Qed.
+
+(* ================= one fixed table ================= *)
+Section Table.
+Variable hash : Z -> Z.
+
+Definition chk (e : elem) : Z := find_checker (hash (fst e)).
+
+(* probe sequence: group bases visited by the loops of find / do_emplace *)
+Fixpoint pbase (B b0 : Z) (j : nat) : Z :=
+  match j with O => b0 | S j' => (pbase B b0 j' + 16 * Z.of_nat (S j')) mod B end.
+
+Definition wfull (t : table) (b : Z) : Prop := forall o, 0 <= o < 16 -> 0 <= ctrl t ((b + o) mod bcount t).
+Definition inwin (B b i : Z) : Prop := exists o, 0 <= o < 16 /\ i = (b + o) mod B.
+
+Record WF (t : table) : Prop := {
+  wf_nd : dummy t = false;
+  wf_pow : pow2 (bcount t);
+  wf_mirror : forall i, 0 <= i < 15 -> ctrl t (bcount t + i) = ctrl t i;
+  wf_ctrl : forall i, 0 <= i < bcount t ->
+            match vals t i with Some e => ctrl t i = chk e | None => ctrl t i = EMPTY_CONTROL end;
+  wf_probe : forall i e, 0 <= i < bcount t -> vals t i = Some e ->
+             exists j, (Z.of_nat j < bcount t / 16) /\ inwin (bcount t) (pbase (bcount t) (find_base0 (hash (fst e)) (mask t)) j) i /\
+                       forall j', (j' < j)%nat -> wfull t (pbase (bcount t) (find_base0 (hash (fst e)) (mask t)) j');
+  wf_nodup : NoDup (map fst (titer t));
+  wf_cnt : cnt t = Z.of_nat (length (titer t))
+}.
+
+Lemma wf_mask t : WF t -> mask t = bcount t - 1.
+Proof. intros. rewrite bcount_eq. lia. Qed.
+
+Lemma wf_ge t : WF t -> 16 <= bcount t.
+Proof. intros H. apply pow2_ge, H. Qed.
+
+Lemma pbase_range B b0 j : 0 < B -> 0 <= b0 < B -> 0 <= pbase B b0 j < B.
+Proof. intros. destruct j; simpl; auto. apply Z.mod_pos_bound. lia. Qed.
+
+(* a group load at a base inside the table reads the logical (wrapped) control bytes *)
+Lemma ctrl_read t b o : WF t -> 0 <= b < bcount t -> 0 <= o < 16 ->
+  ctrl t (b + o) = ctrl t ((b + o) mod bcount t).
+Proof.
+  intros H Hb Ho. pose proof (wf_ge _ H).
+  destruct (Z_lt_dec (b + o) (bcount t)).
+  - rewrite Z.mod_small by lia. reflexivity.
+  - replace (b + o) with (bcount t + (b + o - bcount t)) at 1 by lia.
+    rewrite (wf_mirror _ H) by lia.
+    replace ((b + o) mod bcount t) with (b + o - bcount t); auto.
+    replace (b + o) with ((b + o - bcount t) + 1 * bcount t) at 2 by lia.
+    rewrite Z.mod_add by lia. rewrite Z.mod_small by lia. reflexivity.
+Qed.
+
+Lemma ctrl_nonneg_iff t i : WF t -> 0 <= i < bcount t ->
+  (0 <= ctrl t i <-> exists e, vals t i = Some e).
+Proof.
+  intros H Hi. pose proof (wf_ctrl _ H i Hi) as C. destruct (vals t i) as [e|].
+  - split; [intros _; eauto|]. intros _. rewrite C. unfold chk. pose proof (checker_range (hash (fst e))). lia.
+  - rewrite C, empty_val. split; [lia|]. intros (e & He). discriminate.
+Qed.
+
+Definition nomatch (t : table) (key b : Z) : Prop :=
+  forall o, 0 <= o < 16 -> key_at t ((b + o) mod bcount t) key = false.
+
+Definition absent (t : table) (key : Z) : Prop :=
+  forall i e, 0 <= i < bcount t -> vals t i = Some e -> fst e <> key.
+
+Definition holds (t : table) (i key : Z) : Prop :=
+  0 <= i < bcount t /\ exists e, vals t i = Some e /\ fst e = key.
+
+(* windows 0..j-1 are full and hold no element with this key  ->  an element with this key has probe index >= j *)
+Lemma absent_from_prefix t key j :
+  WF t ->
+  (forall j', (j' < j)%nat -> nomatch t key (pbase (bcount t) (find_base0 (hash key) (mask t)) j')) ->
+  (bcount t / 16 <= Z.of_nat j) -> absent t key.
+Proof.
+  intros H Hno Hj i e Hi He Hk.
+  destruct (wf_probe _ H i e Hi He) as (je & Hje & (o & Ho & Hio) & _).
+  rewrite Hk in Hio. assert (je < j)%nat by lia.
+  specialize (Hno je H0 o Ho). rewrite <- Hio in Hno.
+  assert (key_at t i key = true) by (apply key_at_true; eauto). congruence.
+Qed.
+
+Lemma nomatch_of_none t key b f :
+  WF t -> 0 <= b < bcount t ->
+  (forall o, f o = (b + o) mod bcount t) ->
+  match_offs t key (find_checker (hash key)) b f offsets = None ->
+  nomatch t key b.
+Proof.
+  intros H Hb Hf Hm o Ho.
+  destruct (key_at t ((b + o) mod bcount t) key) eqn:E; auto.
+  apply key_at_true in E as (e & He & Hk).
+  assert (Hr : 0 <= (b + o) mod bcount t < bcount t) by (apply Z.mod_pos_bound; pose proof (wf_ge _ H); lia).
+  pose proof (wf_ctrl _ H _ Hr) as C. rewrite He in C. unfold chk in C. rewrite Hk in C.
+  pose proof (match_offs_none _ _ _ _ _ _ Hm o (proj2 (in_offsets o) Ho)) as N.
+  rewrite (ctrl_read t b o H Hb Ho) in N. specialize (N C). rewrite Hf in N.
+  assert (key_at t ((b + o) mod bcount t) key = true) by (apply key_at_true; eauto). congruence.
+Qed.
+
+(* the element with this key, if any, cannot sit behind a window that has a hole *)
+Lemma absent_by_hole t key j o :
+  WF t ->
+  (forall j', (j' <= j)%nat -> nomatch t key (pbase (bcount t) (find_base0 (hash key) (mask t)) j')) ->
+  0 <= o < 16 -> ctrl t ((pbase (bcount t) (find_base0 (hash key) (mask t)) j + o) mod bcount t) < 0 ->
+  absent t key.
+Proof.
+  intros H Hno Ho Hneg i e Hi He Hk.
+  destruct (wf_probe _ H i e Hi He) as (je & Hje & (o' & Ho' & Hio) & Hfull).
+  rewrite Hk in Hio, Hfull.
+  destruct (le_lt_dec je j) as [L|L].
+  - specialize (Hno je L o' Ho'). rewrite <- Hio in Hno.
+    assert (key_at t i key = true) by (apply key_at_true; eauto). congruence.
+  - specialize (Hfull j L o Ho). lia.
+Qed.
+
+Lemma find_loop_spec t key : WF t ->
+  forall fuel j step b,
+  step = 16 * Z.of_nat j -> b = pbase (bcount t) (find_base0 (hash key) (mask t)) j ->
+  (bcount t / 16 + 1 <= Z.of_nat fuel + Z.of_nat j) ->
+  (forall j', (j' < j)%nat -> nomatch t key (pbase (bcount t) (find_base0 (hash key) (mask t)) j')) ->
+  match find_loop fuel t key (find_checker (hash key)) step b with
+  | Some i => holds t i key
+  | None => absent t key
+  end.
+Proof.
+  intros H. pose proof (wf_ge _ H) as HB16. pose proof (wf_mask _ H) as Hm.
+  pose proof (pow2_div16 _ (wf_pow _ H)) as [HBd _].
+  induction fuel as [|f IH]; intros j step b Hs Hb Hfuel Hno; cbn [find_loop].
+  - eapply absent_from_prefix; eauto. lia.
+  - rewrite (loop_cond_eq _ _ Hm). destruct (step <? bcount t) eqn:Ec.
+    2:{ apply Z.ltb_ge in Ec. eapply absent_from_prefix; eauto. lia. }
+    apply Z.ltb_lt in Ec.
+    assert (Hbr : 0 <= b < bcount t).
+    { subst b. apply pbase_range; [lia|]. apply (base0_range _ _ (wf_pow _ H) Hm). }
+    match goal with |- context [match_offs ?a1 ?a2 ?a3 ?a4 ?a5 ?a6] => destruct (match_offs a1 a2 a3 a4 a5 a6) as [i|] eqn:Em end.
+    + apply match_offs_some in Em as (o & Ho & -> & _ & Hk). apply in_offsets in Ho.
+      rewrite (find_index_eq _ _ (wf_pow _ H) Hm). split.
+      * apply Z.mod_pos_bound. lia.
+      * apply key_at_true. rewrite (find_index_eq _ _ (wf_pow _ H) Hm) in Hk. auto.
+    + assert (Hnm : nomatch t key b).
+      { eapply nomatch_of_none with (f := fun o => find_index b o (mask t)); eauto.
+        intros o. apply (find_index_eq _ _ (wf_pow _ H) Hm). }
+      assert (Hno' : forall j', (j' <= j)%nat -> nomatch t key (pbase (bcount t) (find_base0 (hash key) (mask t)) j')).
+      { intros j' L. destruct (Nat.eq_dec j' j) as [->|]; [rewrite <- Hb; auto|apply Hno; lia]. }
+      destruct (first_empty t b) as [o|] eqn:Ee.
+      * apply first_empty_some in Ee as [Ho Hneg]. rewrite (ctrl_read t b o H Hbr Ho) in Hneg.
+        subst b. eapply absent_by_hole; eauto.
+      * apply (IH (S j)).
+        -- change find_step_inc with 16. lia.
+        -- rewrite (find_next_base_eq _ _ (wf_pow _ H) Hm). simpl pbase. rewrite <- Hb.
+           f_equal. f_equal. change find_step_inc with 16. lia.
+        -- lia.
+        -- intros j' L. apply Hno'. lia.
+Qed.
+
+Lemma tfind_spec t key : WF t ->
+  match tfind hash t key with Some i => holds t i key | None => absent t key end.
+Proof.
+  intros H. unfold tfind. apply (find_loop_spec t key H _ O); auto.
+  - unfold probe_fuel. pose proof (wf_ge _ H). pose proof (pow2_div16 _ (wf_pow _ H)) as [HBd _].
+    assert (bcount t / 16 <= bcount t) by (apply Z.div_le_upper_bound; lia). lia.
+  - intros j' L. lia.
+Qed.
+
+End Table.
+
+
+(* ------------------------------------------------------------------ part 3 *)
+
+(* ---- generic list facts ---- *)
+Lemma flat_map_ext_in {A B} (f g : A -> list B) l : (forall a, In a l -> f a = g a) -> flat_map f l = flat_map g l.
+Proof. induction l; simpl; intros H; auto. rewrite H, IHl; auto. Qed.
+Lemma flat_map_change {A B} (f g : A -> list B) (l : list A) (x : A) (e : B) :
+  NoDup l -> In x l -> (forall y, y <> x -> In y l -> f y = g y) -> f x = [] -> g x = [e] ->
+  Permutation (flat_map g l) (e :: flat_map f l).
+Proof.
+  intros ND Hin Hsame Hf Hg. apply in_split in Hin as (l1 & l2 & ->).
+  apply NoDup_remove_2 in ND. rewrite !flat_map_app. simpl. rewrite Hf, Hg. simpl.
+  assert (E1 : flat_map g l1 = flat_map f l1).
+  { apply flat_map_ext_in. intros y Hy. symmetry. apply Hsame.
+    - intros ->. apply ND. apply in_or_app. auto.
+    - apply in_or_app. auto. }
+  assert (E2 : flat_map g l2 = flat_map f l2).
+  { apply flat_map_ext_in. intros y Hy. symmetry. apply Hsame.
+    - intros ->. apply ND. apply in_or_app. auto.
+    - apply in_or_app. right. right. auto. }
+  rewrite E1, E2. symmetry. apply Permutation_middle.
+Qed.
+
+Lemma flat_map_len_le {A B} (f : A -> list B) l :
+  (forall x, In x l -> (length (f x) <= 1)%nat) -> (length (flat_map f l) <= length l)%nat.
+Proof.
+  induction l; simpl; intros H; auto. rewrite app_length.
+  pose proof (H a (or_introl eq_refl)). assert (length (flat_map f l) <= length l)%nat by (apply IHl; auto). lia.
+Qed.
+
+Lemma flat_map_len_full {A B} (f : A -> list B) l :
+  (forall x, In x l -> length (f x) = 1%nat) -> length (flat_map f l) = length l.
+Proof.
+  induction l; simpl; intros H; auto. rewrite app_length, H, IHl; auto.
+Qed.
+
+Lemma length_zrange n : 0 <= n -> Z.of_nat (length (zrange n)) = n.
+Proof. intros. unfold zrange. rewrite map_length, seq_length. lia. Qed.
+
+Section Table2.
+Variable hash : Z -> Z.
+Notation WF := (WF hash).
+
+Definition slot (t : table) (i : Z) : list elem :=
+  if 0 <=? ctrl t i then match vals t i with Some e => [e] | None => [(-1, -1)] end else [].
+
+Lemma titer_eq t : titer t = flat_map (slot t) (zrange (bcount t)).
+Proof. reflexivity. Qed.
+
+Lemma slot_wf t i : WF t -> 0 <= i < bcount t ->
+  slot t i = match vals t i with Some e => [e] | None => [] end.
+Proof.
+  intros H Hi. unfold slot. pose proof (wf_ctrl _ _ H i Hi) as C. destruct (vals t i) as [e|].
+  - rewrite C. unfold chk. pose proof (checker_range (hash (fst e))).
+    destruct (0 <=? find_checker (hash (fst e))) eqn:E; auto. lia.
+  - rewrite C. reflexivity.
+Qed.
+
+Lemma titer_in t e : WF t -> (In e (titer t) <-> exists i, 0 <= i < bcount t /\ vals t i = Some e).
+Proof.
+  intros H. rewrite titer_eq, in_flat_map. split.
+  - intros (i & Hi & He). apply in_zrange in Hi. rewrite slot_wf in He by auto.
+    destruct (vals t i) as [e'|] eqn:V; simpl in He; [|tauto]. destruct He as [->|[]]. eauto.
+  - intros (i & Hi & He). exists i. split; [apply in_zrange; auto|]. rewrite slot_wf by auto. rewrite He. simpl; auto.
+Qed.
+
+Lemma titer_len_le t : 0 <= bcount t -> Z.of_nat (length (titer t)) <= bcount t.
+Proof.
+  intros HB. rewrite titer_eq. rewrite <- (length_zrange (bcount t)) at 2 by auto.
+  apply inj_le. apply flat_map_len_le. intros i _. unfold slot.
+  destruct (0 <=? ctrl t i); simpl; [destruct (vals t i); simpl|]; lia.
+Qed.
+
+Lemma titer_len_full t : WF t -> (forall p, 0 <= p < bcount t -> 0 <= ctrl t p) ->
+  Z.of_nat (length (titer t)) = bcount t.
+Proof.
+  intros H Hall. pose proof (wf_ge _ _ H). rewrite titer_eq.
+  rewrite <- (length_zrange (bcount t)) at 2 by lia. f_equal.
+  apply flat_map_len_full. intros i Hi. apply in_zrange in Hi. unfold slot.
+  specialize (Hall i Hi). destruct (0 <=? ctrl t i) eqn:E; [|lia]. destruct (vals t i); reflexivity.
+Qed.
+
+Lemma absent_notin t key : WF t -> absent t key -> ~ In key (map fst (titer t)).
+Proof.
+  intros H Ha Hin. apply in_map_iff in Hin as (e & Hk & He). apply titer_in in He as (i & Hi & Hv); auto.
+  exact (Ha i e Hi Hv Hk).
+Qed.
+
+Lemma notin_absent t key : WF t -> ~ In key (map fst (titer t)) -> absent t key.
+Proof.
+  intros H Hn i e Hi Hv Hk. apply Hn. apply in_map_iff. exists e. split; auto. apply titer_in; eauto.
+Qed.
+
+Lemma holds_in t i key : WF t -> holds t i key -> exists e, vals t i = Some e /\ fst e = key /\ In e (titer t).
+Proof.
+  intros H (Hi & e & Hv & Hk). exists e. repeat split; auto. apply titer_in; eauto.
+Qed.
+
+(* ---- the store of a new element (control byte, its clone, the value) ---- *)
+Definition stored (t : table) (ix : Z) (e : elem) : table :=
+  mkT (dummy t) (mask t)
+      (upd (upd (ctrl t) ix (find_checker (hash (fst e)))) (emp_cloned_index ix (mask t)) (find_checker (hash (fst e))))
+      (upd (vals t) ix (Some e)) (cnt t + 1).
+
+Lemma stored_ctrl t ix e p : WF t -> 0 <= ix < bcount t -> 0 <= p < bcount t ->
+  ctrl (stored t ix e) p = if p =? ix then chk hash e else ctrl t p.
+Proof.
+  intros H Hix Hp. unfold stored, upd; simpl. rewrite (cloned_eq _ _ (wf_pow _ _ H) (wf_mask _ _ H)) by auto.
+  destruct (ix <? 15) eqn:E.
+  - destruct (p =? bcount t + ix) eqn:E1; [lia|]. reflexivity.
+  - destruct (p =? ix); reflexivity.
+Qed.
+
+Lemma stored_wf t ix e j o :
+  WF t -> 0 <= ix < bcount t -> ctrl t ix < 0 -> absent t (fst e) ->
+  Z.of_nat j < bcount t / 16 -> 0 <= o < 16 ->
+  ix = (pbase (bcount t) (find_base0 (hash (fst e)) (mask t)) j + o) mod bcount t ->
+  (forall j', (j' < j)%nat -> wfull t (pbase (bcount t) (find_base0 (hash (fst e)) (mask t)) j')) ->
+  WF (stored t ix e) /\ Permutation (titer (stored t ix e)) (e :: titer t).
+Proof.
+  intros H Hix Hneg Habs Hj Ho Hixo Hfull.
+  pose proof (wf_ge _ _ H) as HB16.
+  assert (Hnone : vals t ix = None).
+  { pose proof (wf_ctrl _ _ H ix Hix) as C. destruct (vals t ix) as [e0|]; auto.
+    rewrite C in Hneg. unfold chk in Hneg. pose proof (checker_range (hash (fst e0))). lia. }
+  assert (HBs : bcount (stored t ix e) = bcount t) by reflexivity.
+  assert (Hmono : forall b, wfull t b -> wfull (stored t ix e) b).
+  { intros b Hw o' Ho'. rewrite HBs. specialize (Hw o' Ho').
+    assert (0 <= (b + o') mod bcount t < bcount t) by (apply Z.mod_pos_bound; lia).
+    rewrite stored_ctrl by auto. destruct (_ =? ix); auto.
+    unfold chk. pose proof (checker_range (hash (fst e))). lia. }
+  assert (Hperm : Permutation (titer (stored t ix e)) (e :: titer t)).
+  { rewrite !titer_eq, HBs. apply flat_map_change with (x := ix).
+    - apply nodup_zrange.
+    - apply in_zrange; auto.
+    - intros y Hy Hin. apply in_zrange in Hin. unfold slot. rewrite stored_ctrl by auto.
+      destruct (y =? ix) eqn:E; [lia|]. simpl. unfold upd. rewrite E. reflexivity.
+    - unfold slot. destruct (0 <=? ctrl t ix) eqn:E; auto. lia.
+    - unfold slot. rewrite stored_ctrl by auto. rewrite Z.eqb_refl. simpl. unfold upd. rewrite Z.eqb_refl.
+      unfold chk. pose proof (checker_range (hash (fst e))). destruct (0 <=? _) eqn:E; auto. lia. }
+  split; auto. constructor.
+  - apply (wf_nd _ _ H).
+  - rewrite HBs. apply (wf_pow _ _ H).
+  - intros i Hi. rewrite HBs. unfold stored, upd; simpl.
+    rewrite (cloned_eq _ _ (wf_pow _ _ H) (wf_mask _ _ H)) by auto.
+    destruct (ix <? 15) eqn:E.
+    + apply Z.ltb_lt in E. destruct (bcount t + i =? bcount t + ix) eqn:E1.
+      * destruct (i =? bcount t + ix) eqn:E2; [lia|]. destruct (i =? ix) eqn:E3; [reflexivity|lia].
+      * destruct (i =? bcount t + ix) eqn:E2; [lia|]. destruct (bcount t + i =? ix) eqn:E3; [lia|].
+        destruct (i =? ix) eqn:E4; [lia|]. apply (wf_mirror _ _ H); auto.
+    + apply Z.ltb_ge in E. destruct (bcount t + i =? ix) eqn:E1; [lia|]. destruct (i =? ix) eqn:E2; [lia|].
+      apply (wf_mirror _ _ H); auto.
+  - intros i Hi. rewrite HBs in Hi. rewrite stored_ctrl by auto. simpl. unfold upd.
+    destruct (i =? ix) eqn:E; [reflexivity|]. apply (wf_ctrl _ _ H); auto.
+  - intros i e0 Hi Hv. rewrite HBs in *. simpl in Hv. unfold upd in Hv. simpl mask.
+    destruct (i =? ix) eqn:E.
+    + injection Hv as <-. apply Z.eqb_eq in E. subst i. exists j. split; [auto|]. split.
+      * exists o. auto.
+      * intros j' L. apply Hmono. auto.
+    + destruct (wf_probe _ _ H i e0 Hi Hv) as (j0 & Hj0 & Hw & Hf). exists j0. split; [auto|]. split; auto.
+  - apply Permutation_map with (f := fst) in Hperm. simpl in Hperm.
+    apply (Permutation_NoDup (Permutation_sym Hperm)). constructor.
+    + apply absent_notin; auto.
+    + apply (wf_nodup _ _ H).
+  - simpl cnt. rewrite (wf_cnt _ _ H). rewrite (Permutation_length Hperm). simpl. lia.
+Qed.
+
+Definition allfull (t : table) (h : Z) : Prop :=
+  forall j', Z.of_nat j' < bcount t / 16 -> wfull t (pbase (bcount t) (find_base0 h (mask t)) j').
+
+Lemma emp_loop_spec t e : WF t ->
+  forall fuel j step b,
+  step = 16 * Z.of_nat j -> b = pbase (bcount t) (find_base0 (hash (fst e)) (mask t)) j ->
+  (bcount t / 16 + 1 <= Z.of_nat fuel + Z.of_nat j) -> Z.of_nat j <= bcount t / 16 ->
+  (forall j', (j' < j)%nat -> nomatch t (fst e) (pbase (bcount t) (find_base0 (hash (fst e)) (mask t)) j')) ->
+  (forall j', (j' < j)%nat -> wfull t (pbase (bcount t) (find_base0 (hash (fst e)) (mask t)) j')) ->
+  match emp_loop fuel t e (find_checker (hash (fst e))) step b with
+  | (t', EExists i) => t' = t /\ holds t i (fst e)
+  | (t', EInserted i) => absent t (fst e) /\ WF t' /\ bcount t' = bcount t /\ 0 <= i < bcount t /\
+                         vals t' i = Some e /\ Permutation (titer t') (e :: titer t)
+  | (t', EFull) => t' = t /\ absent t (fst e) /\ allfull t (hash (fst e))
+  | (_, EStuck) => False
+  end.
+Proof.
+  intros H. pose proof (wf_ge _ _ H) as HB16. pose proof (wf_mask _ _ H) as Hm.
+  pose proof (pow2_div16 _ (wf_pow _ _ H)) as [HBd _].
+  induction fuel as [|f IH]; intros j step b Hs Hb Hfuel Hjn Hno Hfu; cbn [emp_loop].
+  - lia.
+  - rewrite (emp_loop_cond_eq _ _ Hm). destruct (step <? bcount t) eqn:Ec.
+    2:{ apply Z.ltb_ge in Ec. split; auto. split.
+        - eapply absent_from_prefix; eauto. lia.
+        - intros j' Hj'. apply Hfu. lia. }
+    apply Z.ltb_lt in Ec.
+    assert (Hbr : 0 <= b < bcount t).
+    { subst b. apply pbase_range; [lia|]. apply (base0_range _ _ (wf_pow _ _ H) Hm). }
+    match goal with |- context [match_offs ?a1 ?a2 ?a3 ?a4 ?a5 ?a6] => destruct (match_offs a1 a2 a3 a4 a5 a6) as [i|] eqn:Em end.
+    + apply match_offs_some in Em as (o & Ho & -> & _ & Hk). apply in_offsets in Ho.
+      rewrite (emp_match_index_eq _ _ (wf_pow _ _ H) Hm) in Hk.
+      rewrite (emp_match_index_eq _ _ (wf_pow _ _ H) Hm). split; auto. split.
+      * apply Z.mod_pos_bound. lia.
+      * apply key_at_true. auto.
+    + assert (Hnm : nomatch t (fst e) b).
+      { eapply nomatch_of_none with (f := fun o => emp_match_index b o (mask t)); eauto.
+        intros o. apply (emp_match_index_eq _ _ (wf_pow _ _ H) Hm). }
+      assert (Hno' : forall j', (j' <= j)%nat -> nomatch t (fst e) (pbase (bcount t) (find_base0 (hash (fst e)) (mask t)) j')).
+      { intros j' L. destruct (Nat.eq_dec j' j) as [->|]; [rewrite <- Hb; auto|apply Hno; lia]. }
+      destruct (first_empty t b) as [o|] eqn:Ee.
+      * apply first_empty_some in Ee as [Ho Hneg]. rewrite (ctrl_read _ t b o H Hbr Ho) in Hneg.
+        rewrite (emp_insert_index_eq _ _ (wf_pow _ _ H) Hm).
+        set (ix := (b + o) mod bcount t) in *.
+        assert (Hix : 0 <= ix < bcount t) by (apply Z.mod_pos_bound; lia).
+        assert (Habs : absent t (fst e)).
+        { subst b. eapply absent_by_hole; eauto. }
+        assert (Hc : ctrl t ix = EMPTY_CONTROL).
+        { pose proof (wf_ctrl _ _ H ix Hix) as C. destruct (vals t ix) as [e0|]; auto.
+          rewrite C in Hneg. unfold chk in Hneg. pose proof (checker_range (hash (fst e0))). lia. }
+        rewrite Hc, Z.eqb_refl.
+        destruct (stored_wf t ix e j o H Hix Hneg Habs) as [W P]; auto; try lia.
+        { unfold ix. rewrite Hb. reflexivity. }
+        fold (stored t ix e). split; [exact Habs|]. split; [exact W|]. split; [reflexivity|].
+        split; [lia|]. split; [|exact P].
+        unfold stored, upd. cbn [vals]. rewrite Z.eqb_refl. reflexivity.
+      * pose proof (first_empty_none _ _ Ee) as Hfl.
+        assert (Hwf : wfull t b).
+        { intros o Ho. rewrite <- (ctrl_read _ t b o H Hbr Ho). auto. }
+        apply (IH (S j)).
+        -- change emp_step_inc with 16. lia.
+        -- rewrite (emp_next_base_eq _ _ (wf_pow _ _ H) Hm). simpl pbase. rewrite <- Hb.
+           f_equal. f_equal. change emp_step_inc with 16. lia.
+        -- lia.
+        -- lia.
+        -- intros j' L. apply Hno'. lia.
+        -- intros j' L. destruct (Nat.eq_dec j' j) as [->|]; [rewrite <- Hb; auto|apply Hfu; lia].
+Qed.
+
+Lemma templace_spec t e : WF t ->
+  match templace hash t e with
+  | (t', EExists i) => t' = t /\ holds t i (fst e)
+  | (t', EInserted i) => absent t (fst e) /\ WF t' /\ bcount t' = bcount t /\ 0 <= i < bcount t /\
+                         vals t' i = Some e /\ Permutation (titer t') (e :: titer t)
+  | (t', EFull) => t' = t /\ absent t (fst e) /\ allfull t (hash (fst e))
+  | (_, EStuck) => False
+  end.
+Proof.
+  intros H. unfold templace. rewrite emp_checker_eq, emp_base0_eq.
+  pose proof (wf_ge _ _ H). pose proof (pow2_div16 _ (wf_pow _ _ H)) as [HBd _].
+  apply (emp_loop_spec t e H _ O); auto; try lia.
+  unfold probe_fuel. assert (bcount t / 16 <= bcount t) by (apply Z.div_le_upper_bound; lia). lia.
+Qed.
+
+End Table2.
+
+
+(* ------------------------------------------------------------------ part 4 *)
+
+(* ================= triangular probing visits every group ================= *)
+Fixpoint tri (j : nat) : Z := match j with O => 0 | S j' => tri j' + Z.of_nat (S j') end.
+
+Lemma tri_double j : 2 * tri j = Z.of_nat j * (Z.of_nat j + 1).
+Proof. induction j; [reflexivity|]. cbn [tri]. nia. Qed.
+
+Lemma pbase_closed B b0 j : 0 < B -> 0 <= b0 < B -> pbase B b0 j = (b0 + 16 * tri j) mod B.
+Proof.
+  intros HB Hb. induction j.
+  - simpl. rewrite Z.add_0_r, Z.mod_small; lia.
+  - cbn [pbase tri]. rewrite IHj. rewrite Zplus_mod_idemp_l. f_equal. lia.
+Qed.
+
+Lemma odd_not_div2 b : Z.odd b = true -> ~ (2 | b).
+Proof. intros H [c Hc]. subst b. rewrite Z.odd_mul in H. simpl in H. rewrite andb_false_r in H. discriminate. Qed.
+
+Lemma pow2_div_odd k a b : 0 <= k -> Z.odd b = true -> (2 ^ k | a * b) -> (2 ^ k | a).
+Proof.
+  intros Hk Hb Hd. apply Gauss with (b := b).
+  - rewrite Z.mul_comm. exact Hd.
+  - apply rel_prime_sym. apply rel_prime_Zpower_r; auto.
+    apply rel_prime_sym. apply prime_rel_prime; [apply prime_2|]. apply odd_not_div2; auto.
+Qed.
+
+Lemma tri_inj m i j : 0 <= m -> (i < j)%nat -> Z.of_nat j < 2 ^ m -> tri i mod 2 ^ m <> tri j mod 2 ^ m.
+Proof.
+  intros Hm Hij Hj E.
+  assert (HN : 0 < 2 ^ m) by (apply Z.pow_pos_nonneg; lia).
+  assert (D : (2 ^ m | tri j - tri i)).
+  { apply Z.mod_divide; [lia|]. rewrite Zminus_mod, E, Z.sub_diag. apply Z.mod_0_l. lia. }
+  assert (D2 : (2 ^ (m + 1) | (Z.of_nat j - Z.of_nat i) * (Z.of_nat j + Z.of_nat i + 1))).
+  { replace ((Z.of_nat j - Z.of_nat i) * (Z.of_nat j + Z.of_nat i + 1)) with (2 * (tri j - tri i))
+      by (pose proof (tri_double i); pose proof (tri_double j); nia).
+    rewrite Z.pow_add_r by lia. rewrite Z.mul_comm. change (2 ^ 1) with 2. apply Z.mul_divide_mono_l. exact D. }
+  assert (P2 : 2 ^ (m + 1) = 2 * 2 ^ m) by (rewrite Z.pow_add_r by lia; change (2 ^ 1) with 2; lia).
+  destruct (Z.odd (Z.of_nat j - Z.of_nat i)) eqn:O1.
+  - rewrite Z.mul_comm in D2. apply pow2_div_odd in D2; auto; [|lia].
+    apply Z.divide_pos_le in D2; lia.
+  - assert (O2 : Z.odd (Z.of_nat j + Z.of_nat i + 1) = true).
+    { replace (Z.of_nat j + Z.of_nat i + 1) with ((Z.of_nat j - Z.of_nat i) + (1 + 2 * Z.of_nat i)) by lia.
+      rewrite Z.odd_add, O1, Z.odd_add_mul_2. reflexivity. }
+    apply pow2_div_odd in D2; auto; [|lia].
+    apply Z.divide_pos_le in D2; lia.
+Qed.
+
+Lemma NoDup_map_in {A B} (f : A -> B) l :
+  (forall x y, In x l -> In y l -> f x = f y -> x = y) -> NoDup l -> NoDup (map f l).
+Proof.
+  induction l; intros Hinj ND; simpl; constructor.
+  - inversion ND; subst. intros Hin. apply in_map_iff in Hin as (y & Hy & Hin).
+    assert (y = a) by (apply Hinj; simpl; auto). subst. contradiction.
+  - inversion ND; subst. apply IHl; auto. intros; apply Hinj; simpl; auto.
+Qed.
+
+Lemma tri_surj m q : 0 <= m -> 0 <= q < 2 ^ m -> exists j, Z.of_nat j < 2 ^ m /\ tri j mod 2 ^ m = q.
+Proof.
+  intros Hm Hq. assert (HN : 0 < 2 ^ m) by lia.
+  set (n := Z.to_nat (2 ^ m)).
+  set (l := map (fun j => tri j mod 2 ^ m) (seq 0 n)).
+  assert (ND : NoDup l).
+  { apply NoDup_map_in; [|apply seq_NoDup]. intros x y Hx Hy E. apply in_seq in Hx, Hy.
+    destruct (lt_eq_lt_dec x y) as [[L|L]|L]; auto; exfalso.
+    - apply (tri_inj m x y); auto; lia.
+    - apply (tri_inj m y x); auto; lia. }
+  assert (I : incl (zrange (2 ^ m)) l).
+  { apply NoDup_length_incl; auto.
+    - unfold l, zrange. rewrite !map_length, !seq_length. fold n. lia.
+    - intros x Hx. unfold l in Hx. apply in_map_iff in Hx as (j & <- & _). apply in_zrange.
+      apply Z.mod_pos_bound. lia. }
+  assert (Hin : In q l) by (apply I, in_zrange; auto).
+  unfold l in Hin. apply in_map_iff in Hin as (j & Hj & Hjn). apply in_seq in Hjn.
+  exists j. split; auto. lia.
+Qed.
+
+Section Cover.
+Variable hash : Z -> Z.
+Notation WF := (WF hash).
+
+Lemma allfull_all t h : WF t -> allfull t h -> forall p, 0 <= p < bcount t -> 0 <= ctrl t p.
+Proof.
+  intros H Hall p Hp. unfold allfull, wfull in Hall. pose proof (wf_ge _ _ H) as HB16. pose proof (wf_mask _ _ H) as Hm.
+  destruct (wf_pow _ _ H) as (k & Hk & HBk).
+  set (B := bcount t) in *. set (b0 := find_base0 h (mask t)) in *.
+  assert (Hb0 : 0 <= b0 < B) by (apply (base0_range _ _ (wf_pow _ _ H) Hm)).
+  set (m := k - 4). assert (HN : B = 16 * 2 ^ m).
+  { rewrite HBk. unfold m. replace k with (4 + (k - 4)) at 1 by lia. rewrite Z.pow_add_r by lia. reflexivity. }
+  assert (HNpos : 0 < 2 ^ m) by (apply Z.pow_pos_nonneg; lia).
+  assert (HBdiv : B / 16 = 2 ^ m) by (rewrite HN, Z.mul_comm, Z.div_mul; lia).
+  set (d := (p - b0) mod B). assert (Hd : 0 <= d < B) by (apply Z.mod_pos_bound; lia).
+  destruct (tri_surj m (d / 16)) as (j & Hj & Hq); [lia| |].
+  { split; [apply Z.div_pos; lia|]. apply Z.div_lt_upper_bound; lia. }
+  assert (Ho : 0 <= d mod 16 < 16) by (apply Z.mod_pos_bound; lia).
+  specialize (Hall j). rewrite HBdiv in Hall. specialize (Hall Hj (d mod 16) Ho).
+  rewrite pbase_closed in Hall by lia. rewrite Zplus_mod_idemp_l in Hall.
+  replace ((b0 + 16 * tri j + d mod 16) mod B) with p in Hall; auto.
+  pose proof (Z.div_mod (tri j) (2 ^ m) ltac:(lia)) as E1.
+  pose proof (Z.div_mod d 16 ltac:(lia)) as E2.
+  replace (b0 + 16 * tri j + d mod 16) with ((b0 + d) + (tri j / 2 ^ m) * B) by nia.
+  rewrite Z.mod_add by lia. unfold d. rewrite Zplus_mod_idemp_r.
+  replace (b0 + (p - b0)) with p by lia. rewrite Z.mod_small; lia.
+Qed.
+
+Lemma full_cnt t h : WF t -> allfull t h -> cnt t = bcount t.
+Proof.
+  intros H Hall. rewrite (wf_cnt _ _ H). apply (titer_len_full hash); auto. eapply allfull_all; eauto.
+Qed.
+
+End Cover.
+
+
+(* ------------------------------------------------------------------ part 5 *)
+
+Lemma bit_ceil_spec n : exists k, 0 <= k /\ bit_ceil n = 2 ^ k /\ n <= bit_ceil n.
+Proof.
+  unfold bit_ceil. destruct (n <=? 1) eqn:E.
+  - exists 0. apply Z.leb_le in E. simpl. lia.
+  - apply Z.leb_gt in E. exists (Z.log2_up n). split; [apply Z.log2_up_nonneg|]. split; auto.
+    apply Z.log2_up_spec. lia.
+Qed.
+
+Lemma flat_map_nil {A B} (f : A -> list B) l : (forall x, In x l -> f x = []) -> flat_map f l = [].
+Proof. induction l; simpl; intros H; auto. rewrite H, IHl; auto. Qed.
+
+Lemma match_offs_no t key c b f os : (forall o, ctrl t (b + o) <> c) -> match_offs t key c b f os = None.
+Proof.
+  intros H. induction os as [|o r IH]; simpl; auto.
+  destruct (ctrl t (b + o) =? c) eqn:E; [apply Z.eqb_eq in E; destruct (H o E)|]. simpl. auto.
+Qed.
+
+Section Ops.
+Variable hash : Z -> Z.
+Notation WF := (WF hash).
+
+Lemma construct_bcount old m : pow2 (bcount (construct old m)) /\ m <= bcount (construct old m).
+Proof.
+  unfold construct. rewrite bcount_eq. cbn [mask]. unfold construct_mask, construct_arg.
+  destruct (bit_ceil_spec (Z.max m SIZE)) as (k & Hk & E & L). rewrite size_16 in *.
+  replace (bit_ceil (Z.max m 16) - 1 + 1) with (bit_ceil (Z.max m 16)) by lia. split; [|lia].
+  exists k. split; auto. destruct (Z_lt_dec k 4); [|lia]. exfalso.
+  assert (2 ^ k <= 2 ^ 3) by (apply Z.pow_le_mono_r; lia). change (2 ^ 3) with 8 in *. lia.
+Qed.
+
+Lemma construct_titer old m : titer (construct old m) = [].
+Proof. rewrite titer_eq. apply flat_map_nil. intros i _. reflexivity. Qed.
+
+Lemma construct_wf old m : cnt old = 0 -> WF (construct old m).
+Proof.
+  intros Hc. pose proof (construct_bcount old m) as [HP _]. constructor.
+  - reflexivity.
+  - exact HP.
+  - intros i Hi. reflexivity.
+  - intros i Hi. reflexivity.
+  - intros i e Hi Hv. discriminate.
+  - rewrite construct_titer. constructor.
+  - rewrite construct_titer. simpl. auto.
+Qed.
+
+Lemma fresh_wf m : WF (fresh m) /\ titer (fresh m) = [] /\ m <= bcount (fresh m) /\ cnt (fresh m) = 0.
+Proof.
+  unfold fresh. split; [apply construct_wf; reflexivity|]. split; [apply construct_titer|].
+  split; [apply construct_bcount|reflexivity].
+Qed.
+
+(* ---- the placeholder table ---- *)
+Lemma dummy_titer : titer dummy_table = [].
+Proof. reflexivity. Qed.
+
+Lemma dummy_templace e : templace hash dummy_table e = (dummy_table, EFull).
+Proof.
+  unfold templace, probe_fuel. set (c := emp_checker (hash (fst e))). set (b := emp_base0 _ _).
+  assert (Hc : forall o, ctrl dummy_table (b + o) <> c).
+  { intros o. simpl. unfold c. rewrite emp_checker_eq. pose proof (checker_range (hash (fst e))). rewrite dummy_val. lia. }
+  change (Z.to_nat (bcount dummy_table)) with 16%nat. cbn [emp_loop].
+  change (emp_loop_cond 0 (mask dummy_table)) with true. cbv iota.
+  rewrite match_offs_no by auto. reflexivity.
+Qed.
+
+Lemma dummy_tfind key : tfind hash dummy_table key = None.
+Proof.
+  unfold tfind, probe_fuel. set (c := find_checker (hash key)). set (b := find_base0 _ _).
+  assert (Hc : forall o, ctrl dummy_table (b + o) <> c).
+  { intros o. simpl. unfold c. pose proof (checker_range (hash key)). rewrite dummy_val. lia. }
+  change (Z.to_nat (bcount dummy_table)) with 16%nat. cbn [find_loop].
+  change (find_loop_cond 0 (mask dummy_table)) with true. cbv iota.
+  rewrite match_offs_no by auto. reflexivity.
+Qed.
+
+(* ---- clear ---- *)
+Lemma tabulate_eq {A} (f : Z -> A) n i : tabulate f n i = f i.
+Proof.
+  unfold tabulate. destruct ((0 <=? i) && (i <? n)) eqn:E; auto.
+  apply andb_true_iff in E as [E1 E2]. apply Z.leb_le in E1. apply Z.ltb_lt in E2.
+  destruct (nth_error (map f (zrange n)) (Z.to_nat i)) as [x|] eqn:N; auto.
+  apply nth_error_In in N as Hin. 
+  unfold zrange in N. rewrite map_map in N.
+  rewrite nth_error_map in N. rewrite nth_error_nth' with (d := O) in N by (rewrite seq_length; lia).
+  rewrite seq_nth in N by lia. simpl in N. injection N as <-. f_equal. lia.
+Qed.
+
+Lemma tclear_spec t : WF t -> WF (tclear t) /\ titer (tclear t) = [] /\ bcount (tclear t) = bcount t.
+Proof.
+  intros H. unfold tclear. rewrite (wf_nd _ _ H).
+  destruct (cnt t =? 0) eqn:E.
+  - apply Z.eqb_eq in E. split; auto. split; auto. rewrite (wf_cnt _ _ H) in E.
+    destruct (titer t); auto. simpl in E. lia.
+  - set (t' := mkT _ _ _ _ _). pose proof (wf_ge _ _ H) as HB16.
+    assert (HB : bcount t' = bcount t) by reflexivity.
+    assert (Hneg : forall i, 0 <= i < bcount t -> ctrl t i < 0 -> ctrl t i = EMPTY_CONTROL /\ vals t i = None).
+    { intros i Hi Hn. pose proof (wf_ctrl _ _ H i Hi) as C. destruct (vals t i) as [e|]; auto.
+      rewrite C in Hn. unfold chk in Hn. pose proof (checker_range (hash (fst e))). lia. }
+    assert (Hctrl : forall i, 0 <= i < bcount t + 16 -> ctrl t' i = EMPTY_CONTROL).
+    { intros i Hi. unfold t'. cbn [ctrl]. rewrite tabulate_eq. unfold clear_ctrl, clear_mirror_at.
+      rewrite size_16. replace (0 + (0 + bcount t)) with (bcount t) by lia.
+      destruct ((bcount t <=? i) && (i <? bcount t + 16)) eqn:E1; auto.
+      assert (Hi' : 0 <= i < bcount t).
+      { apply andb_false_iff in E1 as [E1|E1]; [apply Z.leb_gt in E1|apply Z.ltb_ge in E1]; lia. }
+      destruct ((0 <=? i) && (i <? bcount t)) eqn:E2.
+      2:{ apply andb_false_iff in E2 as [E2|E2]; [apply Z.leb_gt in E2|apply Z.ltb_ge in E2]; lia. }
+      destruct (group_nonempty t (i - i mod clear_group_step)) eqn:G; auto.
+      unfold group_nonempty in G. change clear_group_step with 16 in G.
+      assert (Ho : In (i mod 16) offsets) by (apply in_offsets, Z.mod_pos_bound; lia).
+      assert (Hn : ctrl t i < 0).
+      { destruct (Z_lt_dec (ctrl t i) 0); auto. exfalso.
+        assert (G' : existsb (fun o : Z => 0 <=? ctrl t (i - i mod 16 + o)) offsets = true).
+        { apply existsb_exists. exists (i mod 16). split; auto.
+          replace (i - i mod 16 + i mod 16) with i by lia. apply Z.leb_le. lia. }
+        congruence. }
+      apply Hneg; auto. }
+    assert (Hvals : forall i, 0 <= i < bcount t -> vals t' i = None).
+    { intros i Hi. unfold t'. cbn [vals]. rewrite tabulate_eq.
+      destruct (0 <=? i) eqn:E1; [|lia]. destruct (i <? bcount t) eqn:E2; [|lia]. simpl.
+      destruct (0 <=? ctrl t i) eqn:E3; auto. apply Z.leb_gt in E3. apply Hneg; auto. }
+    assert (Hti : titer t' = []).
+    { rewrite titer_eq. apply flat_map_nil. intros i Hi. rewrite HB in Hi. apply in_zrange in Hi.
+      unfold slot. rewrite Hctrl by lia. reflexivity. }
+    split; [|split; auto]. constructor; auto.
+    + rewrite HB. apply (wf_pow _ _ H).
+    + intros i Hi. rewrite HB. rewrite !Hctrl by lia. reflexivity.
+    + intros i Hi. rewrite HB in Hi. rewrite Hvals, Hctrl by lia. reflexivity.
+    + intros i e Hi Hv. rewrite HB in Hi. rewrite Hvals in Hv by lia. discriminate.
+    + rewrite Hti. constructor.
+    + rewrite Hti. reflexivity.
+Qed.
+
+(* ---- refill ---- *)
+Lemma templace_cases t e : WF t ->
+  (In (fst e) (map fst (titer t)) /\ exists i x, templace hash t e = (t, EExists i) /\ vals t i = Some x /\ fst x = fst e /\ In x (titer t)) \/
+  (~ In (fst e) (map fst (titer t)) /\ cnt t < bcount t /\
+     exists t' i, templace hash t e = (t', EInserted i) /\ WF t' /\ bcount t' = bcount t /\ vals t' i = Some e /\
+                  Permutation (titer t') (e :: titer t) /\ cnt t' = cnt t + 1) \/
+  (~ In (fst e) (map fst (titer t)) /\ cnt t = bcount t /\ templace hash t e = (t, EFull)).
+Proof.
+  intros H. pose proof (templace_spec hash t e H) as S.
+  destruct (templace hash t e) as [t' r]. destruct r as [i|i| |].
+  - destruct S as (Ha & W & HB & Hi & Hv & P). right. left. split; [apply (absent_notin hash); auto|].
+    assert (Hc : cnt t' = cnt t + 1).
+    { rewrite (wf_cnt _ _ W), (wf_cnt _ _ H), (Permutation_length P). simpl. lia. }
+    split.
+    + pose proof (titer_len_le t' ltac:(pose proof (wf_ge _ _ W); lia)). rewrite <- (wf_cnt _ _ W) in *. lia.
+    + exists t', i. split; [reflexivity|]. split; [exact W|]. auto.
+  - destruct S as (-> & Hh). left. destruct (holds_in _ _ _ _ H Hh) as (x & Hv & Hk & Hin).
+    split; [apply in_map_iff; eauto|]. exists i, x. auto.
+  - destruct S as (-> & Ha & Hf). right. right. split; [apply (absent_notin hash); auto|]. split; auto.
+    eapply full_cnt; eauto.
+  - destruct S.
+Qed.
+
+Lemma refill_spec l : forall t, WF t -> NoDup (map fst l) ->
+  (forall e, In e l -> ~ In (fst e) (map fst (titer t))) ->
+  cnt t + Z.of_nat (length l) <= bcount t ->
+  WF (refill hash t l) /\ Permutation (titer (refill hash t l)) (titer t ++ l) /\ bcount (refill hash t l) = bcount t.
+Proof.
+  induction l as [|a l IH]; intros t H ND Hdis Hcap.
+  - simpl. rewrite app_nil_r. auto.
+  - unfold refill. simpl fold_left. fold (refill hash (fst (templace hash t a)) l).
+    destruct (templace_cases t a H) as [(Hin & _)|[(Hn & Hlt & t' & i & E & W & HB & Hv & P & Hc)|(Hn & Hfull & _)]].
+    + exfalso. apply (Hdis a); simpl; auto.
+    + rewrite E. simpl fst. inversion ND as [|? ? Hna ND']; subst.
+      destruct (IH t' W ND') as (W2 & P2 & B2).
+      * intros e He Hin. apply (Permutation_in _ (Permutation_map fst P)) in Hin. simpl in Hin.
+        destruct Hin as [Hin|Hin].
+        -- apply Hna. rewrite Hin. apply in_map. auto.
+        -- apply (Hdis e); simpl; auto.
+      * rewrite Hc, HB. simpl length in Hcap. lia.
+      * split; auto. split; [|lia].
+        rewrite P2. rewrite P. simpl. apply Permutation_middle.
+    + simpl length in Hcap. lia.
+Qed.
+
+Lemma trehash_spec t n : WF t -> WF (trehash hash t n) /\ Permutation (titer (trehash hash t n)) (titer t).
+Proof.
+  intros H. unfold trehash. rewrite (wf_nd _ _ H).
+  destruct (rehash_same _ _); [split; auto|].
+  destruct (fresh_wf (rehash_arg (bit_ceil (rehash_ceil_arg n)) (cnt t))) as (W & T & L & C).
+  destruct (refill_spec (titer t) _ W) as (W2 & P2 & _).
+  - apply (wf_nodup _ _ H).
+  - intros e _. rewrite T. simpl. auto.
+  - rewrite C. unfold rehash_arg in *. pose proof (wf_cnt _ _ H) as Q. unfold elem in *. lia.
+  - split; auto. rewrite P2, T. reflexivity.
+Qed.
+
+Lemma treserve_spec t n : WF t -> WF (treserve hash t n) /\ Permutation (titer (treserve hash t n)) (titer t).
+Proof.
+  intros H. unfold treserve. rewrite (wf_nd _ _ H).
+  destruct (reserve_grows n (bcount t)) eqn:G; [|split; auto].
+  destruct (fresh_wf (reserve_arg n)) as (W & T & L & C).
+  destruct (refill_spec (titer t) _ W) as (W2 & P2 & _).
+  - apply (wf_nodup _ _ H).
+  - intros e _. rewrite T. simpl. auto.
+  - rewrite C. unfold reserve_arg in *. unfold reserve_grows in G.
+    pose proof (titer_len_le t ltac:(pose proof (wf_ge _ _ H); lia)). unfold elem in *. lia.
+  - split; auto. rewrite P2, T. reflexivity.
+Qed.
+
+End Ops.
+
+
+(* ------------------------------------------------------------------ part 6 *)
+
+(* ---- reference map facts ---- *)
+Lemma rfind_some l k x : rfind l k = Some x -> In x l /\ fst x = k.
+Proof. unfold rfind. intros H. apply find_some in H as [H1 H2]. apply Z.eqb_eq in H2. auto. Qed.
+
+Lemma rfind_none l k : rfind l k = None <-> ~ In k (map fst l).
+Proof.
+  unfold rfind. split.
+  - intros H Hin. apply in_map_iff in Hin as (x & Hk & Hin). pose proof (find_none _ _ H x Hin) as E.
+    simpl in E. apply Z.eqb_neq in E. auto.
+  - intros H. destruct (find (fun e : elem => fst e =? k) l) as [x|] eqn:E; auto. apply find_some in E as [H1 H2]. apply Z.eqb_eq in H2.
+    exfalso. apply H. apply in_map_iff. eauto.
+Qed.
+
+Lemma rfind_in l x : NoDup (map fst l) -> In x l -> rfind l (fst x) = Some x.
+Proof.
+  induction l as [|a l IH]; simpl; intros ND Hin; [tauto|]. inversion ND; subst. unfold rfind. simpl.
+  destruct Hin as [->|Hin].
+  - rewrite Z.eqb_refl. reflexivity.
+  - destruct (fst a =? fst x) eqn:E.
+    + apply Z.eqb_eq in E. exfalso. apply H1. rewrite E. apply in_map. auto.
+    + apply IH; auto.
+Qed.
+
+Lemma fold_rins_nodup l : forall l0, NoDup (map fst (l0 ++ l)) -> fold_left rins l l0 = l0 ++ l.
+Proof.
+  induction l as [|a l IH]; intros l0 ND; simpl.
+  - rewrite app_nil_r. reflexivity.
+  - unfold rins at 2. assert (Hn : rfind l0 (fst a) = None).
+    { apply rfind_none. rewrite map_app in ND. simpl in ND. apply NoDup_remove_2 in ND.
+      intros Hin. apply ND. apply in_or_app. auto. }
+    rewrite Hn. rewrite IH; rewrite <- app_assoc; simpl; auto.
+Qed.
+
+Section Chain.
+Variable hash : Z -> Z.
+Notation WF := (WF hash).
+
+Fixpoint chain_ok (ts : list table) : Prop :=
+  match ts with [] => True | t :: r => (r <> [] -> cnt t = bcount t) /\ chain_ok r end.
+
+Definition keys (ts : list table) : list Z := map fst (flat_map titer ts).
+
+Lemma emplace_tables_spec ts : forall prev e, Forall WF ts -> chain_ok ts ->
+  match emplace_tables hash ts prev e with
+  | (ts', r, v) =>
+    Forall WF ts' /\ chain_ok ts' /\ ts' <> [] /\
+    ((In (fst e) (keys ts) /\ ts' = ts /\ (exists i, r = EExists i) /\
+      exists x, v = Some x /\ In x (flat_map titer ts) /\ fst x = fst e) \/
+     (~ In (fst e) (keys ts) /\ (exists i, r = EInserted i) /\ v = Some e /\
+      Permutation (flat_map titer ts') (e :: flat_map titer ts)))
+  end.
+Proof.
+  induction ts as [|t rs IH]; intros prev e HW Hok.
+  - cbn [emplace_tables]. destruct (fresh_wf hash (chain_new_node_arg prev)) as (W & T & L & C).
+    destruct (templace_cases hash _ e W) as [(Hin & _)|[(Hn & Hlt & t' & i & E & W' & HB & Hv & P & Hc)|(Hn & Hfull & _)]].
+    + rewrite T in Hin. destruct Hin.
+    + rewrite E. cbn [deref]. rewrite Hv. split; [constructor; auto|]. split; [simpl; tauto|]. split; [discriminate|].
+      right. unfold keys. simpl. split; [tauto|]. split; [eauto|]. split; auto.
+      rewrite app_nil_r. rewrite P, T. reflexivity.
+    + pose proof (wf_ge _ _ W). lia.
+  - cbn [emplace_tables]. inversion HW as [|? ? Wt Wrs]; subst. destruct Hok as [Hfull Hok].
+    destruct (templace_cases hash t e Wt) as [(Hin & i & x & E & Hv & Hk & Hx)|[(Hn & Hlt & t' & i & E & W' & HB & Hv & P & Hc)|(Hn & Hf & E)]].
+    + rewrite E. cbn [deref]. split; auto. split; [simpl; auto|]. split; [discriminate|]. left.
+      split. { unfold keys. simpl. rewrite map_app. apply in_or_app. auto. }
+      split; auto. split; [eauto|]. exists x. split; auto. split; auto. simpl. apply in_or_app. auto.
+    + rewrite E. cbn [deref]. rewrite Hv.
+      assert (rs = []) by (destruct rs; auto; exfalso; assert (cnt t = bcount t) by (apply Hfull; discriminate); lia).
+      subst rs. split; [constructor; auto|]. split; [simpl; tauto|]. split; [discriminate|]. right.
+      unfold keys. simpl. rewrite !app_nil_r. split; auto. split; [eauto|]. split; auto.
+    + rewrite E. specialize (IH (bcount t) e Wrs Hok).
+      destruct (emplace_tables hash rs (bcount t) e) as [[rs' r'] v'].
+      destruct IH as (W2 & Ok2 & Ne & D). split; [constructor; auto|]. split; [simpl; split; auto|]. split; [discriminate|].
+      destruct D as [(Hin & -> & Hr & x & -> & Hx & Hk)|(Hnin & Hr & -> & P)].
+      * left. split. { unfold keys. simpl. rewrite map_app. apply in_or_app. auto. }
+        split; auto. split; auto. exists x. split; auto. split; auto. simpl. apply in_or_app. auto.
+      * right. split. { unfold keys. simpl. rewrite map_app. intros Hin. apply in_app_or in Hin as [Hin|Hin]; auto. }
+        split; auto. split; auto. simpl. rewrite P. symmetry. apply Permutation_middle.
+Qed.
+
+Lemma find_tables_spec ts key : Forall WF ts ->
+  match find_tables hash ts key with
+  | Some x => In x (flat_map titer ts) /\ fst x = key
+  | None => ~ In key (keys ts)
+  end.
+Proof.
+  induction ts as [|t rs IH]; intros HW; cbn [find_tables].
+  - unfold keys. simpl. tauto.
+  - inversion HW as [|? ? Wt Wrs]; subst. pose proof (tfind_spec hash t key Wt) as S.
+    destruct (tfind hash t key) as [i|].
+    + destruct (holds_in _ _ _ _ Wt S) as (x & Hv & Hk & Hin). rewrite Hv. split; auto. simpl. apply in_or_app. auto.
+    + specialize (IH Wrs). destruct (find_tables hash rs key) as [x|].
+      * destruct IH. split; auto. simpl. apply in_or_app. auto.
+      * unfold keys in *. simpl. rewrite map_app. intros Hin. apply in_app_or in Hin as [Hin|Hin]; auto.
+        exact (absent_notin hash t key Wt S Hin).
+Qed.
+
+(* ---- chain invariant (head constructed with a bucket count: no placeholder) ---- *)
+Definition tables (c : chain) : list table := head c :: rest c.
+Definition celems (c : chain) : list elem := flat_map titer (tables c).
+
+Record CInv (c : chain) : Prop := {
+  ci_wf : Forall WF (tables c);
+  ci_ok : chain_ok (tables c);
+  ci_nd : NoDup (map fst (celems c))
+}.
+
+Definition Ref (c : chain) (l : list elem) : Prop := CInv c /\ Permutation (celems c) l.
+
+Lemma ref_nodup c l : Ref c l -> NoDup (map fst l).
+Proof. intros [H P]. apply (Permutation_NoDup (Permutation_map fst P)). apply (ci_nd _ H). Qed.
+
+Definition is_ins (r : eres) : bool := match r with EInserted _ => true | _ => false end.
+Definition is_stuck (r : eres) : bool := match r with EStuck => true | _ => false end.
+
+Lemma cemplace_spec c e l : Ref c l ->
+  match cemplace hash c e with
+  | (c', r, v) =>
+    match rfind l (fst e) with
+    | Some x => c' = c /\ is_ins r = false /\ is_stuck r = false /\ v = Some x
+    | None => Ref c' (l ++ [e]) /\ is_ins r = true /\ is_stuck r = false /\ v = Some e
+    end
+  end.
+Proof.
+  intros [H P]. unfold cemplace. pose proof (emplace_tables_spec (tables c) 0 e (ci_wf _ H) (ci_ok _ H)) as S.
+  fold (tables c). destruct (emplace_tables hash (tables c) 0 e) as [[ts' r] v].
+  destruct S as (W & Ok & Ne & D). destruct ts' as [|t' rs']; [congruence|].
+  destruct D as [(Hin & E & (i & ->) & x & -> & Hx & Hk)|(Hnin & (i & ->) & -> & P2)].
+  - assert (Hf : rfind l (fst e) = Some x).
+    { rewrite <- Hk. apply rfind_in; [eapply ref_nodup; split; eauto|]. apply (Permutation_in _ P). auto. }
+    rewrite Hf. simpl. repeat split; auto. destruct c; unfold tables in E; simpl in *. congruence.
+  - assert (Hf : rfind l (fst e) = None).
+    { apply rfind_none. intros Hin. apply Hnin. unfold keys.
+      apply (Permutation_in _ (Permutation_map fst (Permutation_sym P))). auto. }
+    rewrite Hf. simpl. split; [|auto].
+    assert (PP : Permutation (celems (mkC t' rs')) (l ++ [e])).
+    { unfold celems, tables. simpl head. simpl rest. rewrite P2. rewrite Permutation_app_comm. simpl.
+      constructor. exact P. }
+    split; auto. constructor; auto.
+    unfold celems, tables. simpl head. simpl rest.
+    apply (Permutation_NoDup (Permutation_map fst (Permutation_sym P2))). simpl. constructor; auto.
+    apply (ci_nd _ H).
+Qed.
+End Chain.
+
+
+(* ------------------------------------------------------------------ part 7 *)
 
 (* ---- what "the container behaves like the reference" means for one observation ---- *)
 Definition out_ok (o : out) (r : rout) : Prop :=
@@ -18,10 +1033,219 @@ Definition out_ok (o : out) (r : rout) : Prop :=
 Definition refines (hash : Z -> Z) (a b : option Z) (ops : list op) : Prop :=
   Forall2 out_ok (snd (run hash (init a b) ops)) (snd (rrun ([], []) ops)).
 
+Section Chain2.
+Variable hash : Z -> Z.
+Notation WF := (WF hash).
+Notation CInv := (CInv hash).
+Notation Ref := (Ref hash).
+Notation chain_ok := (chain_ok).
+
+Lemma total_size_loop_spec ts : forall sum, Forall WF ts -> chain_ok ts -> ts <> [] ->
+  total_size_loop ts sum = sum + Z.of_nat (length (flat_map titer ts)).
+Proof.
+  induction ts as [|t rs IH]; intros sum HW Hok Hne; [congruence|].
+  inversion HW as [|? ? Wt Wrs]; subst. destruct Hok as [Hfull Hok]. destruct rs as [|t2 rs].
+  - simpl. rewrite app_nil_r. unfold total_size_ret. rewrite (wf_cnt _ _ Wt). reflexivity.
+  - change (total_size_loop (t :: t2 :: rs) sum) with (total_size_loop (t2 :: rs) (sum + total_size_inc (bcount t) (cnt t))).
+    rewrite IH; auto; [|discriminate]. unfold total_size_inc. rewrite <- Hfull by discriminate.
+    rewrite (wf_cnt _ _ Wt). change (flat_map titer (t :: t2 :: rs)) with (titer t ++ flat_map titer (t2 :: rs)).
+    rewrite app_length. lia.
+Qed.
+
+Lemma total_size_init_full b : total_size_init b b = b.
+Proof. reflexivity. Qed.
+
+Lemma csize_spec c : CInv c -> csize c = Z.of_nat (length (celems c)).
+Proof.
+  intros H. pose proof (ci_wf _ _ H) as HW. pose proof (ci_ok _ _ H) as Hok. unfold tables in *.
+  inversion HW as [|? ? Wt Wrs]; subst. destruct Hok as [Hfull Hok].
+  unfold csize, celems, tables. destruct (rest c) as [|t2 rs] eqn:R.
+  - simpl. rewrite app_nil_r. apply (wf_cnt _ _ Wt).
+  - rewrite total_size_loop_spec; auto; [|discriminate].
+    rewrite <- Hfull by discriminate. rewrite total_size_init_full. rewrite (wf_cnt _ _ Wt).
+    change (flat_map titer (head c :: t2 :: rs)) with (titer (head c) ++ flat_map titer (t2 :: rs)).
+    rewrite app_length. lia.
+Qed.
+
+Lemma citer_spec c : CInv c -> citer c = Some (celems c).
+Proof.
+  intros H. pose proof (ci_wf _ _ H) as HW. pose proof (ci_ok _ _ H) as Hok. unfold tables in *.
+  inversion HW as [|? ? Wt Wrs]; subst. destruct Hok as [Hfull Hok].
+  unfold citer, celems, tables, head_next. destruct (titer (head c)) as [|x l] eqn:T.
+  - assert (R : rest c = []).
+    { destruct (rest c); auto. exfalso. assert (E : cnt (head c) = bcount (head c)) by (apply Hfull; discriminate).
+      rewrite (wf_cnt _ _ Wt), T in E. pose proof (wf_ge _ _ Wt). simpl in E. lia. }
+    rewrite R. simpl. rewrite T. reflexivity.
+  - simpl flat_map. rewrite T. f_equal. f_equal. unfold walk. destruct (rest c); reflexivity.
+Qed.
+
+Lemma single_cinv t : WF t -> CInv (mkC t []).
+Proof.
+  intros W. constructor; unfold celems, tables; simpl.
+  - constructor; auto.
+  - split; auto. congruence.
+  - rewrite app_nil_r. apply (wf_nodup _ _ W).
+Qed.
+
+Lemma single_ref t l : WF t -> Permutation (titer t) l -> Ref (mkC t []) l.
+Proof.
+  intros W P. split; [apply single_cinv; auto|]. unfold celems, tables. simpl. rewrite app_nil_r. auto.
+Qed.
+
+Lemma fresh_ref m : Ref (mkC (fresh m) []) [].
+Proof.
+  destruct (fresh_wf hash m) as (W & T & _). apply single_ref; auto. rewrite T. constructor.
+Qed.
+
+Lemma cclear_spec c : CInv c -> Ref (cclear c) [].
+Proof.
+  intros H. unfold cclear. destruct (rest c) eqn:R.
+  - pose proof (ci_wf _ _ H) as HW. unfold tables in HW. inversion HW as [|? ? Wt _]; subst.
+    destruct (tclear_spec hash _ Wt) as (W & T & _). apply single_ref; auto. rewrite T. constructor.
+  - apply fresh_ref.
+Qed.
+
+Lemma cfill_spec l : forall c l0, Ref c l0 -> Ref (cfill hash c l) (fold_left rins l l0).
+Proof.
+  induction l as [|e l IH]; intros c l0 R; simpl; auto.
+  unfold cfill. simpl fold_left. fold (cfill hash (fst (fst (cemplace hash c e))) l).
+  apply IH. pose proof (cemplace_spec hash c e l0 R) as S.
+  destruct (cemplace hash c e) as [[c' r] v]. simpl fst. unfold rins.
+  destruct (rfind l0 (fst e)).
+  - destruct S as (-> & _). auto.
+  - destruct S as (R' & _). auto.
+Qed.
+
+Lemma rebuild_ref c l m : Ref c l -> Ref (cfill hash (mkC (fresh m) []) (celems c)) l.
+Proof.
+  intros [H P]. pose proof (cfill_spec (celems c) _ _ (fresh_ref m)) as R.
+  rewrite fold_rins_nodup in R by (simpl; apply (ci_nd _ _ H)). simpl in R.
+  destruct R as [H' P']. split; auto. rewrite P'. auto.
+Qed.
+
+Lemma crehash_spec c l n : Ref c l -> Ref (crehash hash c n) l.
+Proof.
+  intros [H P]. unfold crehash. destruct (rest c) eqn:R.
+  - pose proof (ci_wf _ _ H) as HW. unfold tables in HW. inversion HW as [|? ? Wt _]; subst.
+    destruct (trehash_spec hash _ n Wt) as (W & T). apply single_ref; auto. rewrite T.
+    unfold celems, tables in P. rewrite R in P. simpl in P. rewrite app_nil_r in P. auto.
+  - rewrite citer_spec by auto. apply rebuild_ref. split; auto.
+Qed.
+
+Lemma creserve_spec c l n : Ref c l -> Ref (creserve hash c n) l.
+Proof.
+  intros [H P]. unfold creserve. destruct (rest c) eqn:R.
+  - pose proof (ci_wf _ _ H) as HW. unfold tables in HW. inversion HW as [|? ? Wt _]; subst.
+    destruct (treserve_spec hash _ n Wt) as (W & T). apply single_ref; auto. rewrite T.
+    unfold celems, tables in P. rewrite R in P. simpl in P. rewrite app_nil_r in P. auto.
+  - rewrite citer_spec by auto. apply rebuild_ref. split; auto.
+Qed.
+
+Lemma ccopy_spec c l : Ref c l -> Ref (ccopy hash c) l.
+Proof.
+  intros [H P]. unfold ccopy. rewrite citer_spec by auto.
+  destruct (fresh_wf hash (chain_copy_arg (csize c))) as (W & T & L & C).
+  destruct (refill_spec hash (celems c) _ W) as (W2 & P2 & _).
+  - apply (ci_nd _ _ H).
+  - intros e _. rewrite T. simpl. auto.
+  - rewrite C. pose proof (csize_spec c H) as Q. unfold chain_copy_arg in *. unfold elem in *. lia.
+  - apply single_ref; auto. rewrite P2, T. simpl. auto.
+Qed.
+
+Lemma cfind_spec c l k : Ref c l -> cfind hash c k = rfind l k.
+Proof.
+  intros [H P]. unfold cfind. pose proof (find_tables_spec hash (tables c) k (ci_wf _ _ H)) as S.
+  fold (tables c). destruct (find_tables hash (tables c) k) as [x|].
+  - destruct S as [Hin <-]. symmetry. apply rfind_in.
+    + apply (Permutation_NoDup (Permutation_map fst P)). apply (ci_nd _ _ H).
+    + apply (Permutation_in _ P). auto.
+  - symmetry. apply rfind_none. intros Hin. apply S. unfold keys.
+    apply (Permutation_in _ (Permutation_map fst (Permutation_sym P))). auto.
+Qed.
+
+(* ---- one step of a client program ---- *)
+Definition Inv (s : state) (r : rstate) : Prop := Ref (fst s) (fst r) /\ Ref (snd s) (snd r).
+
+Lemma step_ok s r o : Inv s r ->
+  Inv (fst (step hash s o)) (fst (rstep r o)) /\ out_ok (snd (step hash s o)) (snd (rstep r o)).
+Proof.
+  destruct s as [a b], r as [la lb]. intros [Ra Rb]. simpl in Ra, Rb.
+  destruct o; cbn [step rstep].
+  - pose proof (cemplace_spec hash a (k, v) la Ra) as S. destruct (cemplace hash a (k, v)) as [[a' r] x].
+    simpl fst in S. destruct (rfind la k) as [e0|].
+    + destruct S as (-> & Hi & Hs & ->). simpl. unfold is_ins in Hi. unfold is_stuck in Hs.
+      split; [split; auto|]. rewrite Hi, Hs. auto.
+    + destruct S as (R' & Hi & Hs & ->). simpl. unfold is_ins in Hi. unfold is_stuck in Hs.
+      split; [split; auto|]. rewrite Hi, Hs. auto.
+  - simpl. split; [split; auto|]. apply cfind_spec; auto.
+  - simpl. split; [split; auto|]. rewrite csize_spec by apply Ra. destruct Ra as [_ P].
+    rewrite (Permutation_length P). reflexivity.
+  - simpl. split; [split; auto|]. rewrite citer_spec by apply Ra. apply Ra.
+  - simpl. split; auto. split; auto. apply cclear_spec, Ra.
+  - simpl. split; auto. split; auto. apply creserve_spec; auto.
+  - simpl. split; auto. split; auto. apply crehash_spec; auto.
+  - simpl. split; auto. split; auto. apply ccopy_spec; auto.
+  - simpl. split; auto. split; auto. apply ccopy_spec; auto.
+  - simpl. split; auto. split; auto. apply cclear_spec, Ra.
+  - simpl. split; auto. split; auto.
+Qed.
+
+Lemma run_ok ops : forall s r, Inv s r -> Forall2 out_ok (snd (run hash s ops)) (snd (rrun r ops)).
+Proof.
+  induction ops as [|o ops IH]; intros s r I; simpl; [constructor|].
+  pose proof (step_ok s r o I) as [I' O].
+  destruct (step hash s o) as [s1 x]. destruct (rstep r o) as [r1 y]. simpl in I', O.
+  specialize (IH s1 r1 I'). destruct (run hash s1 ops) as [s2 xs]. destruct (rrun r1 ops) as [r2 ys].
+  simpl in *. constructor; auto.
+Qed.
+
+Theorem hs_refines_set na nb ops : refines hash (Some na) (Some nb) ops.
+Proof.
+  unfold refines. apply run_ok. split; simpl; apply fresh_ref.
+Qed.
+
+End Chain2.
+
+
+(* ================= the default-constructed container (placeholder head) ================= *)
 Definition hid (k : Z) : Z := k.
 
-Lemma hs_default_size_refuted : exists ops, ~ refines hid None None ops.
+(* size() over-reports by the 16 buckets of the placeholder as soon as a table is chained behind it *)
+Lemma hs_default_size_refuted : ~ refines hid None None [Emplace 1 0; Size].
 Proof.
-  exists [Emplace 1 0; Size]. unfold refines. vm_compute. intro H.
+  unfold refines. vm_compute. intro H.
   inversion H as [|? ? ? ? _ H1]; subst. inversion H1 as [|? ? ? ? H2 _]; subst. discriminate H2.
 Qed.
+
+(* iteration stops after the first chained table: 49 elements inserted, 32 visited *)
+Definition fill49 : list op := map (fun k => Emplace k 0) (zrange 49).
+Lemma hs_default_iter_refuted :
+  exists l, last (snd (run hid (init None None) (fill49 ++ [Iterate]))) OUnit = OIter (Some l) /\ length l = 32%nat.
+Proof. eexists. split; vm_compute; reflexivity. Qed.
+
+Lemma hs_default_refuted : exists ops, ~ refines hid None None ops.
+Proof. eexists. apply hs_default_size_refuted. Qed.
+
+(* ================= the reference itself never holds a key twice ================= *)
+Lemma rstep_nodup r o : NoDup (map fst (fst r)) /\ NoDup (map fst (snd r)) ->
+  NoDup (map fst (fst (fst (rstep r o)))) /\ NoDup (map fst (snd (fst (rstep r o)))).
+Proof.
+  destruct r as [a b]. simpl. intros [Ha Hb]. destruct o; simpl; auto; try (split; auto; constructor).
+  destruct (rfind a k) eqn:E; simpl; auto. split; auto.
+  apply rfind_none in E. rewrite map_app. simpl.
+  apply (Permutation_NoDup (l := k :: map fst a)); [|constructor; auto].
+  rewrite Permutation_app_comm. reflexivity.
+Qed.
+
+Lemma rrun_nodup ops : forall r, NoDup (map fst (fst r)) /\ NoDup (map fst (snd r)) ->
+  NoDup (map fst (fst (fst (rrun r ops)))) /\ NoDup (map fst (snd (fst (rrun r ops)))).
+Proof.
+  induction ops as [|o ops IH]; intros r H; simpl; auto.
+  pose proof (rstep_nodup r o H) as H1. destruct (rstep r o) as [r1 y]. simpl in H1.
+  specialize (IH r1 H1). destruct (rrun r1 ops) as [r2 ys]. simpl in *. auto.
+Qed.
+
+(* non-vacuity: the two chained tables of a 16-bucket container after 60 insertions *)
+Lemma hs_example_chain :
+  length (rest (fst (fst (run hid (init (Some 16) (Some 16)) (map (fun k => Emplace k 0) (zrange 60)))))) = 2%nat.
+Proof. vm_compute. reflexivity. Qed.
